@@ -246,3 +246,233 @@ def visitors_total(run):
                               clause='every expression inside the node is visited (no UNKNOWN NAME) [not visited: %s]' % missing, path=path)
         run.case = None
     core.explore(lambda: None, lambda p, out: go(p))
+
+
+# ---------------------------------------------------------------------------
+# location(): result formatting over every class declarations() can return; import failures
+
+LOC_REPLAY = '''import sys; sys.path.insert(0, %(repo)r)
+from supp.assistant import location, assist
+from supp.project import Project
+p = Project(['/nonexistent'])
+bad = []
+for what, fn, src, pos in (('builtin', location, "len\\n", (1, 3)), ('runtime module', location, "import sys\\nsys\\n", (2, 3)),
+                           ('attribute of a runtime module', location, "import os\\nos.path\\n", (2, 7)),
+                           ('unknown module', location, "import nosuchmod\\n", (1, 16)), ('unknown module', assist, "import nosuchmod.\\n", (1, 17)),
+                           ('unknown module', assist, "from nosuchmod import x\\n", (1, 23)),
+                           ('relative import outside a package', assist, "from . import a\\n", (1, 15))):
+    try:
+        fn(p, src, pos, '/nonexistent/m.py')
+    except SyntaxError:
+        pass
+    except Exception as e:
+        bad.append((what, fn.__name__, src, '%%s: %%s' %% (type(e).__name__, e)))
+if bad:
+    print('REPRODUCED: %%r' %% (bad,)); sys.exit(1)
+print('not reproduced')
+'''
+
+
+def result_objects():
+    """one instance of every class that can reach the formatting loop of location()"""
+    import supp.name as Nm
+    import supp.scope as S
+    import supp.module as Md
+    import supp.util as U
+    import sys
+    top = S.SourceScope(U.Source('x = 1', 'file.py'))
+    out = []
+    a = Nm.AssignedName('x', (1, 0), (1, 0), None)
+    a.scope = top
+    out.append(('AssignedName', a))
+    g = Nm.ArgumentName([0], 'x', (1, 0), (1, 4), None)
+    g.scope = top
+    out.append(('ArgumentName', g))
+    i = Nm.ImportedName('x', (1, 0), (1, 7), 'os', None)
+    i.scope = top
+    out.append(('ImportedName', i))
+    fnode = ast.parse('def f(): pass').body[0]
+    f = S.FuncScope(top, fnode, top)
+    f.scope = top
+    out.append(('FuncScope', f))
+    c = S.ClassScope(top, ast.parse('class C: pass').body[0], top)
+    c.scope = top
+    out.append(('ClassScope', c))
+    out.append(('RuntimeName(builtin)', Nm.RuntimeName('len', len, True)))
+    out.append(('RuntimeName(runtime attribute)', Nm.RuntimeName('path', 1)))
+    attr = ast.parse('self.a = 1').body[0].targets[0]
+    out.append(('AssignedAttribute', Nm.AssignedAttribute(top, attr, None, (1, 5))))
+    out.append(('ImportedModule', Md.ImportedModule(sys)))
+    sm = Md.SourceModule.__new__(Md.SourceModule)
+    sm.name, sm.filename, sm.declared_at = 'm', '/x/m.py', (1, 0)
+    out.append(('SourceModule', sm))
+    out.append(('AdditionalNameWrapper(source module)', Nm.AdditionalNameWrapper(sm, {})))
+    out.append(('AdditionalNameWrapper(runtime module)', Nm.AdditionalNameWrapper(Md.ImportedModule(sys), {})))
+    return out
+
+
+@harness(['C08'], 'supp.assistant.location[result formatting, import failures] / assist[import failures]')
+def location_total(run):
+    """whatever class declarations() returns (every Name / module / wrapper class of supp, alone or in a list of alternatives), the
+    formatting raises nothing and every entry it yields is {'loc': position, 'file': name}; an unresolvable module name (ImportError from
+    the project) never escapes assist / location: only SyntaxError may"""
+    import supp.assistant as A
+    run.concretise = lambda model, ob: {'input': 'cursor on a builtin, a runtime module, an unknown module name', 'script': LOC_REPLAY % {'repo': core.REPO}}
+
+    def go(path):
+        objs = result_objects()
+        for label, o in objs + [('list-of-alternatives', [objs[0][1], objs[1][1]])]:
+            run.case = label
+
+            class Ctx(object):
+                def __init__(self, project):
+                    pass
+
+                def declarations(self, node, result=None):
+                    return [o]
+            f = loader.load('supp.assistant', 'location', stubs=dict(
+                Source=lambda s, fn, pos: s, extract_scope=lambda s, p: None, get_marked_import=lambda t: None,
+                get_marked_name=lambda t: 'node', get_marked_atribute=lambda t: None, EvalCtx=Ctx, print_dump=lambda t: None))
+
+            class Src(object):
+                tree = None
+            try:
+                r = f(None, Src(), (1, 1), 'f.py')
+                exc = None
+            except Exception as e:
+                r, exc = None, e
+            prove('formatting-raises-nothing', exc is None, clause='location() formats a %s result without raising [%s: %s]' % (label, type(exc).__name__, exc), path=path)
+            if exc is None:
+                flat = [x for e in r for x in (e if isinstance(e, list) else [e])]
+                ok = isinstance(r, list) and all(isinstance(x, dict) and set(x) == {'loc', 'file'} and isinstance(x['loc'], tuple) for x in flat)
+                prove('well-formed-entries', ok, clause="every entry is {'loc': (line, col), 'file': ...} [%r]" % (r,), path=path)
+        # import failures
+        class Proj(object):
+            def get_nmodule(self, name, filename):
+                raise ImportError(name)
+
+            def norm_package(self, name, filename):
+                raise ImportError(name)
+
+            def list_packages(self, root):
+                return set()
+        for fname, marked in (('location', ('nosuch', None)), ('location', ('nosuch', 'x')), ('location', ('nosuch.sub', '')),
+                              ('assist', ('nosuch', None)), ('assist', ('nosuch', 'x'))):
+            run.case = '%s%r' % (fname, marked)
+            stubs = dict(Source=lambda s, fn, pos: s, extract_scope=lambda s, p: None, get_marked_import=lambda t, m=marked: m,
+                         print_dump=lambda t: None)
+
+            class Src2(object):
+                tree = None
+                lines = ['import nosuch']
+            f = loader.load('supp.assistant', fname, stubs=stubs)
+            try:
+                r = f(Proj(), Src2(), (1, 13), 'f.py')
+                exc = None
+            except SyntaxError:
+                exc = None
+            except Exception as e:
+                exc = e
+            prove('import-failure-does-not-escape', exc is None,
+                  clause='an unresolvable module name is not an error of the request [%s: %s]' % (type(exc).__name__, exc), path=path)
+        # relative import outside any package: list_packages -> norm_package
+        run.case = 'assist(from-branch, norm_package fails)'
+
+        class Src3(object):
+            tree = None
+            lines = ['from . import']
+        f = loader.load('supp.assistant', 'assist', stubs=dict(Source=lambda s, fn, pos: s))
+        try:
+            f(Proj(), Src3(), (1, 6), 'f.py')
+            exc = None
+        except SyntaxError:
+            exc = None
+        except Exception as e:
+            exc = e
+        prove('import-failure-does-not-escape', exc is None, clause='[%s: %s]' % (type(exc).__name__, exc), path=path)
+        run.case = None
+    core.explore(lambda: None, lambda p, out: go(p))
+
+
+@harness(['C08', 'C07'], 'supp.project.Project.norm_package / get_module[exception class]')
+def import_error_class(run):
+    """whatever cannot be resolved is reported as ImportError (what the import system raises), never as a bare Exception"""
+    import os
+    import tempfile
+    from supp.project import Project
+
+    def go(path):
+        d = tempfile.mkdtemp(prefix='supp-c08-')
+        try:
+            open(os.path.join(d, 'm.py'), 'w').close()
+            p = Project([d])
+            for label, fn in (('relative-import-outside-a-package', lambda: p.norm_package('.a', os.path.join(d, 'm.py'))),
+                              ('relative-import-beyond-top-level', lambda: p.norm_package('...a', os.path.join(d, 'm.py'))),
+                              ('unknown-module', lambda: p.get_module('nosuch_module_xyz')),
+                              ('unknown-submodule', lambda: p.get_module('m.nosuch'))):
+                try:
+                    fn()
+                    kind = 'returned'
+                except ImportError:
+                    kind = 'ImportError'
+                except Exception as e:
+                    kind = '%s: %s' % (type(e).__name__, e)
+                prove('%s-raises-ImportError' % label, kind == 'ImportError', clause='unresolvable names raise ImportError [%s]' % kind, path=path)
+        finally:
+            import shutil
+            shutil.rmtree(d, ignore_errors=True)
+    core.explore(lambda: None, lambda p, out: go(p))
+
+
+SUPER_REPLAY = '''import sys; sys.path.insert(0, %(repo)r)
+from supp.assistant import assist
+from supp.project import Project
+src = "class B:\\n    def m(self): pass\\nclass A(B):\\n    def m(self):\\n        super().\\n"
+try:
+    assist(Project(['/nonexistent']), src, (5, 16), 'f.py')
+except SyntaxError:
+    pass
+except Exception as e:
+    print('REPRODUCED: completion after `super().` raises %%s: %%s' %% (type(e).__name__, e)); sys.exit(1)
+print('not reproduced')
+'''
+
+
+@harness(['C08'], 'supp.name.RuntimeName.call / _attrs')
+def runtime_name_total(run):
+    """call(): instantiating a runtime class is an opaque call that may raise ANY Exception: the result is then None, nothing escapes,
+    and the outcome is memoised; non-classes give None; _attrs never raises (vars() or dir())"""
+    import supp.name as Nm
+    run.concretise = lambda model, ob: {'input': 'completion after `super().` inside a method', 'script': SUPER_REPLAY % {'repo': core.REPO}}
+
+    def go(path):
+        def mk(exc):
+            class K(object):
+                def __init__(self):
+                    if exc:
+                        raise exc('constructor refuses to run without arguments')
+            return K
+        for label, val in [('plain-class', mk(None)), ('TypeError', mk(TypeError)), ('RuntimeError', mk(RuntimeError)),
+                           ('ValueError', mk(ValueError)), ('OSError', mk(OSError)), ('KeyError', mk(KeyError)), ('super', super),
+                           ('function', len), ('instance', 5), ('None', None)]:
+            run.case = label
+            n = Nm.RuntimeName('n', val, True)
+            try:
+                r1 = n.call(None)
+                r2 = n.call(None)
+                exc = None
+            except Exception as e:
+                r1 = r2 = None
+                exc = e
+            prove('call-raises-nothing', exc is None, clause='RuntimeName.call contains the constructor\'s exception [%s: %s]' % (type(exc).__name__, exc), path=path)
+            if exc is None:
+                want_inst = label == 'plain-class'
+                prove('instance-or-none-memoised', (isinstance(r1, Nm.RuntimeName) if want_inst else r1 is None) and r2 is r1, path=path)
+            try:
+                a = n._attrs
+                ok = isinstance(a, dict) and all(isinstance(v, Nm.RuntimeName) for v in a.values())
+            except Exception as e:
+                ok = False
+            prove('attrs-is-a-table-of-runtime-names', ok, path=path)
+        run.case = None
+    core.explore(lambda: None, lambda p, out: go(p))
